@@ -612,6 +612,21 @@ fn exec_op(
                 loom::thread::yield_now();
             }
         },
+        K::AwaitSpun { a, mo, want } => {
+            let mut spun = 0;
+            loop {
+                let v = o.atomics[a].load(mo.std()) as u64;
+                if v == want {
+                    break Res::V(spun);
+                }
+                spun = 1;
+                if prog.objs.spin_hint {
+                    loom::hint::spin_loop();
+                } else {
+                    loom::thread::yield_now();
+                }
+            }
+        }
         K::CellRead { c } => {
             o.cells[c].with(|p| unsafe { std::ptr::read_volatile(p) });
             Res::U
